@@ -17,13 +17,17 @@ import (
 	"verif/internal/drv"
 	"verif/internal/fw"
 
+	"github.com/jsightapi/jsight-api-go-library/core"
+	"github.com/jsightapi/jsight-api-go-library/directive"
+	"github.com/jsightapi/jsight-api-go-library/kit"
 	"github.com/jsightapi/jsight-api-go-library/verifshim/vdet"
+	"github.com/jsightapi/jsight-schema-go-library/fs"
 )
 
 func init() {
 	fw.Register(&fw.Check{
 		ID: "C03", Level: "model_checking",
-		Rule: "(a) environment-answer DFS over map-iteration orders: every `range` over a map in the library (found by the typed instrumenter: 4 sites today) is an explicit choice point; for multi-fault / multi-entry documents (2-3 faulty macros, 2-3 unused Path properties, 3 enums used by 3 types, their pairwise combinations, every single pool block; and every single-file case of the shared streams: pool documents in several orders, all sequences of <= 2 directive variants, paste graphs, 2-3 simultaneous instances of every fault kind about named things, thorough: corpus and names) ALL permutations at every choice point are executed (full product up to 20000 executions per document, beyond that every execution with <= 2 choice points departing from the canonical order) and verdict, message, index, line, trace and JSON bytes must be identical; (b) every project run twice in one process; (c) every project run in two fresh processes; (d) every ordered pair (A, B) of a 34-project set (accepted and rejected, same file names with LF / CRLF / CR content, includes with equal relative names) run A then B in one process: B's result must equal B's result in a fresh process; non-trivial = execution with at least one choice point holding >= 2 keys, or a pair; distinct = distinct (document, choice vector) and pairs",
+		Rule: "(a) environment-answer DFS over map-iteration orders: every `range` over a map in the library (found by the typed instrumenter: 4 sites today) is an explicit choice point; for multi-fault / multi-entry documents (2-3 faulty macros, 2-3 unused Path properties, 3 enums used by 3 types, their pairwise combinations, every single pool block; and every single-file case of the shared streams: pool documents in several orders, all sequences of <= 2 directive variants, paste graphs, 2-3 simultaneous instances of every fault kind about named things, thorough: corpus and names) ALL permutations at every choice point are executed (full product up to 20000 executions per document, beyond that every execution with <= 2 choice points departing from the canonical order) and verdict, message, index, line, trace and JSON bytes must be identical; (a') ALL sequences of three runs over 4 projects x 6 option lists in which the option values are shared between the runs, against the same runs with freshly made option values; (b) every project run twice in one process; (c) every project run in two fresh processes; (d) every ordered pair (A, B) of a 34-project set (accepted and rejected, same file names with LF / CRLF / CR content, includes with equal relative names) run A then B in one process: B's result must equal B's result in a fresh process; non-trivial = execution with at least one choice point holding >= 2 keys, or a pair; distinct = distinct (document, choice vector) and pairs",
 		Assume: []string{"map iterations inside the pinned schema library are not instrumented (only this repository's packages are); interference between projects processed concurrently is C16's harness H3"},
 		Run:    runC03, QuickCap: 10 * time.Minute, ThoroughCap: 40 * time.Minute,
 	})
@@ -233,6 +237,81 @@ func runC03(c *fw.Ctx) {
 		c.Count("evaluations", 2) // the canonical run and its replay (choice-trace determinism)
 		exploreOrders(c, sc.stream+":"+sc.label, sc.proj.Files[sc.proj.Root], limit/10, false)
 	})
+
+	// (a') option values are values: one option value handed to many projects, alone or next to
+	// others, must behave every time like a freshly made one. ALL sequences of three runs over
+	// {4 projects} x {6 option lists built from 3 shared option values}.
+	{
+		shared := []core.Option{core.WithBannedDirectives(directive.Include), core.WithBannedDirectives(directive.Macro, directive.Paste), core.WithFixedSeedForRegex()}
+		fresh := func(i int) core.Option {
+			switch i {
+			case 0:
+				return core.WithBannedDirectives(directive.Include)
+			case 1:
+				return core.WithBannedDirectives(directive.Macro, directive.Paste)
+			}
+			return core.WithFixedSeedForRegex()
+		}
+		lists := [][]int{{0}, {1}, {0, 1}, {1, 0}, {2}, {0, 2}}
+		texts := []string{
+			"JSIGHT 0.3\nMACRO @m\n(\n  200 any\n)\nGET /m\n  PASTE @m\n",
+			"JSIGHT 0.3\nINCLUDE missing.jst\n",
+			"JSIGHT 0.3\nTYPE @t\n  {\"id\": 1}\nGET /t\n  200 @t\n",
+			"JSIGHT 0.3\nTYPE @r regex\n  /[a-z]{3}[0-9]{2}/\nGET /r\n  200 regex\n    /x{2,4}/\n",
+		}
+		runOpts := func(text string, oo []core.Option) string {
+			j := kit.NewJApiFromFile(fs.NewFile("root.jst", []byte(text)), oo...)
+			if je := j.ValidateJAPI(); je != nil {
+				return fmt.Sprintf("err|%s|%d|%d", je.Msg, je.Index(), je.Line())
+			}
+			b, err := j.ToJson()
+			if err != nil {
+				return "sererr|" + err.Error()
+			}
+			return "ok|" + string(b)
+		}
+		type kind struct{ t, l int }
+		var kinds []kind
+		ref := map[kind]string{}
+		for t := range texts {
+			for l := range lists {
+				k := kind{t, l}
+				kinds = append(kinds, k)
+				var oo []core.Option
+				for _, i := range lists[l] {
+					oo = append(oo, fresh(i))
+				}
+				ref[k] = runOpts(texts[t], oo)
+			}
+		}
+		pick := func(k kind) []core.Option {
+			var oo []core.Option
+			for _, i := range lists[k.l] {
+				oo = append(oo, shared[i])
+			}
+			return oo
+		}
+		for _, k1 := range kinds {
+			for _, k2 := range kinds {
+				if !c.Next() {
+					continue
+				}
+				for _, k3 := range kinds {
+					shared = []core.Option{fresh(0), fresh(1), fresh(2)} // the values are shared within one sequence only
+					c.Count("evaluations", 3)
+					c.Distinct(fmt.Sprint("opts:", k1, k2, k3))
+					seq := []kind{k1, k2, k3}
+					for i, k := range seq {
+						if got := runOpts(texts[k.t], pick(k)); got != ref[k] {
+							c.Violate("shared-option-value-changes-result", "C03:option-reuse", fmt.Sprintf("run %d of the sequence %v (project, option list) with option values shared between the runs gives %s, with freshly made option values %s", i+1, seq, clipS(got, 160), clipS(ref[k], 160)),
+								map[string]interface{}{"sequence": fmt.Sprint(seq), "projects": texts, "option_lists": "0=ban INCLUDE, 1=ban MACRO+PASTE, 2=fixed seed; lists " + fmt.Sprint(lists)})
+							break
+						}
+					}
+				}
+			}
+		}
+	}
 
 	// (b)-(d): repetition, fresh processes, and A-then-B
 	self, _ := os.Executable()
